@@ -69,7 +69,7 @@ pub fn exec(body: &str, emit: &mut dyn FnMut(&str)) {
             }
             if good && got == total { INTACT.fetch_add(1, Ordering::SeqCst); }
             DONE.fetch_add(1, Ordering::SeqCst);
-            unsafe { libc::close(a); libc::close(b); }
+            _ = open_coroutine_core::syscall::close(None, a); _ = open_coroutine_core::syscall::close(None, b);
             Some(got)
         }, None, None);
         std::mem::forget(h);
